@@ -211,8 +211,8 @@ func TestC20Sweep32(t *testing.T) {
 func sweep(t *testing.T, st *vstat.Stats, a, b int64) {
 	var evals, nt int64
 	n := int(a)
-	fl := refFloor(n)      // floor power (or n when n<=2)
-	ce, _ := refCeil(n)    // ceil power
+	fl := refFloor(n)   // floor power (or n when n<=2)
+	ce, _ := refCeil(n) // ceil power
 	for ; int64(n) <= b; n++ {
 		// advance incremental reference
 		if n > 2 {
